@@ -97,21 +97,11 @@ func mustPass(info *types.Info, body *ast.BlockStmt, sites []token.Pos) (bool, t
 func emptyGuarded(ret *ast.ReturnStmt, parents map[ast.Node]ast.Node, allowed func(e ast.Expr) bool) bool {
 	for p := parents[ret]; p != nil; p = parents[p] {
 		if is, ok := p.(*ast.IfStmt); ok && nodeContains(is.Body, ret.Pos()) {
-			be, ok := ast.Unparen(is.Cond).(*ast.BinaryExpr)
-			if !ok || be.Op != token.EQL {
+			coll := emptinessTestOf(is.Cond)
+			if coll == nil {
 				return false
 			}
-			call, ok := ast.Unparen(be.X).(*ast.CallExpr)
-			if !ok || len(call.Args) != 1 {
-				return false
-			}
-			if id, ok := call.Fun.(*ast.Ident); !ok || id.Name != "len" {
-				return false
-			}
-			if lit, ok := ast.Unparen(be.Y).(*ast.BasicLit); !ok || lit.Value != "0" {
-				return false
-			}
-			return allowed(call.Args[0])
+			return allowed(coll)
 		}
 		if _, ok := p.(*ast.FuncLit); ok {
 			return false
@@ -321,9 +311,29 @@ func guardConstSet(info *types.Info, root ast.Node, isTarget func(*ast.CallExpr)
 		}
 		return "", false
 	}
+	// a boolean local with a single definition stands for that definition
+	defs := map[types.Object][]ast.Expr{}
+	ast.Inspect(root, func(n ast.Node) bool {
+		if as, ok := n.(*ast.AssignStmt); ok && len(as.Lhs) == len(as.Rhs) {
+			for i, l := range as.Lhs {
+				if id, ok := l.(*ast.Ident); ok {
+					if o := info.ObjectOf(id); o != nil {
+						defs[o] = append(defs[o], as.Rhs[i])
+					}
+				}
+			}
+		}
+		return true
+	})
 	var condSet func(e ast.Expr) []string
 	condSet = func(e ast.Expr) []string {
 		e = ast.Unparen(e)
+		if id, ok := e.(*ast.Ident); ok {
+			if o := info.ObjectOf(id); o != nil && len(defs[o]) == 1 {
+				return condSet(defs[o][0])
+			}
+			return nil
+		}
 		be, ok := e.(*ast.BinaryExpr)
 		if !ok {
 			return nil
@@ -386,4 +396,87 @@ func guardConstSet(info *types.Info, root ast.Node, isTarget func(*ast.CallExpr)
 	})
 	sort.Strings(out)
 	return out
+}
+
+// emptinessTestOf: cond is true exactly when len(E) is zero — len(E) == 0, 0 == len(E), len(E) < 1, len(E) <= 0,
+// 1 > len(E), 0 >= len(E), !(len(E) > 0), !(len(E) != 0), !(len(E) >= 1); returns E, or nil.
+func emptinessTestOf(cond ast.Expr) ast.Expr {
+	cond = ast.Unparen(cond)
+	if ue, ok := cond.(*ast.UnaryExpr); ok && ue.Op == token.NOT {
+		return nonEmptinessTestOf(ue.X)
+	}
+	be, ok := cond.(*ast.BinaryExpr)
+	if !ok {
+		return nil
+	}
+	lenArg := func(e ast.Expr) ast.Expr {
+		call, ok := ast.Unparen(e).(*ast.CallExpr)
+		if !ok || len(call.Args) != 1 {
+			return nil
+		}
+		if id, ok := call.Fun.(*ast.Ident); !ok || id.Name != "len" {
+			return nil
+		}
+		return call.Args[0]
+	}
+	lit := func(e ast.Expr) string {
+		if l, ok := ast.Unparen(e).(*ast.BasicLit); ok {
+			return l.Value
+		}
+		return ""
+	}
+	if a := lenArg(be.X); a != nil {
+		switch {
+		case be.Op == token.EQL && lit(be.Y) == "0", be.Op == token.LSS && lit(be.Y) == "1", be.Op == token.LEQ && lit(be.Y) == "0":
+			return a
+		}
+	}
+	if a := lenArg(be.Y); a != nil {
+		switch {
+		case be.Op == token.EQL && lit(be.X) == "0", be.Op == token.GTR && lit(be.X) == "1", be.Op == token.GEQ && lit(be.X) == "0":
+			return a
+		}
+	}
+	return nil
+}
+
+// nonEmptinessTestOf: cond is true exactly when len(E) is positive.
+func nonEmptinessTestOf(cond ast.Expr) ast.Expr {
+	cond = ast.Unparen(cond)
+	if ue, ok := cond.(*ast.UnaryExpr); ok && ue.Op == token.NOT {
+		return emptinessTestOf(ue.X)
+	}
+	be, ok := cond.(*ast.BinaryExpr)
+	if !ok {
+		return nil
+	}
+	lenArg := func(e ast.Expr) ast.Expr {
+		call, ok := ast.Unparen(e).(*ast.CallExpr)
+		if !ok || len(call.Args) != 1 {
+			return nil
+		}
+		if id, ok := call.Fun.(*ast.Ident); !ok || id.Name != "len" {
+			return nil
+		}
+		return call.Args[0]
+	}
+	lit := func(e ast.Expr) string {
+		if l, ok := ast.Unparen(e).(*ast.BasicLit); ok {
+			return l.Value
+		}
+		return ""
+	}
+	if a := lenArg(be.X); a != nil {
+		switch {
+		case be.Op == token.NEQ && lit(be.Y) == "0", be.Op == token.GTR && lit(be.Y) == "0", be.Op == token.GEQ && lit(be.Y) == "1":
+			return a
+		}
+	}
+	if a := lenArg(be.Y); a != nil {
+		switch {
+		case be.Op == token.NEQ && lit(be.X) == "0", be.Op == token.LSS && lit(be.X) == "0", be.Op == token.LEQ && lit(be.X) == "1":
+			return a
+		}
+	}
+	return nil
 }
